@@ -426,8 +426,6 @@ class History:
                 elif k == "rdiv":
                     _ = 2 / h
                 elif k == "imul_negative":
-                    if h.total == 0:
-                        must = False
                     h *= rng.choice([-1, -0.5, -2.0])
                 elif k == "imul_hist":
                     h *= h.copy()
